@@ -240,6 +240,9 @@ class C05(Harness):
         class Neither(BaseEstimator):
             pass
 
+        class Both(RegressorMixin, BR):
+            """a time-series regressor that also carries scikit-learn's mixin (as sktime's own forest regressor does)"""
+
         out = {}
         for strat in ("direct", "recursive", "multioutput", "dirrec"):
             a = red.make_reduction(Tab(), strategy=strat, window_length=inp["wl"])
@@ -254,6 +257,7 @@ class C05(Harness):
                 return True
             return False
 
+        out["both"] = [type(red.make_reduction(Both(), strategy=st_, window_length=inp["wl"])).__name__ for st_ in ("direct", "recursive", "multioutput", "dirrec")]
         out["bad_strategy"] = rej(lambda: red.make_reduction(Tab(), strategy="iterated"))
         out["bad_scitype"] = rej(lambda: red.make_reduction(Tab(), scitype="classifier"))
         out["bad_infer"] = rej(lambda: red.make_reduction(Neither()))
@@ -270,6 +274,7 @@ class C05(Harness):
                 a, b, c, wl, st, sa, sb = out[strat]
                 P.check("dispatch", a == nm + "TabularRegressionForecaster" and b == nm + "TimeSeriesRegressionForecaster" and c == b and st == strat and sa == "tabular-regressor" and sb == "time-series-regressor")
                 P.eq("dispatch", wl, inp["wl"])
+            P.check("dispatch", out["both"] == [names[st_] + "TimeSeriesRegressionForecaster" for st_ in ("direct", "recursive", "multioutput", "dirrec")], {"both_bases": out["both"]})
             P.check("unknown-rejected", out["bad_strategy"] and out["bad_scitype"] and out["bad_infer"])
             return
         if cell.get("seq") and "wl_eff" not in inp:
